@@ -247,8 +247,8 @@ func (e *DNSEntry) decodeRRs(count int, p DNS, offset int, buffer []byte) (int, 
 			}
 			s := strings.TrimSuffix(string(name), ".in-addr.arpa")
 			tmp := net.ParseIP(s)
-			if tmp == nil {
-				return 0, false, fmt.Errorf("invalid PTR IP: %s", string(name))
+			if tmp == nil { // not a reversed address (service browsing and classless delegations live under in-addr.arpa too): not kept
+				break
 			}
 			if tmp = tmp.To4(); tmp == nil {
 				fmt.Printf("dns   : ignoring ptr ip6=%s\n", tmp)
